@@ -154,6 +154,20 @@ def collect(rep, vals, pid, nontrivial=None, key=None, is_first=lambda ev: ev.ge
         rep.samples.append(vlib.read_line(vals[0][0], 1))
 
 
+def ts_docs(scratch, drive):
+    """A few teletext transport streams (from TLC's family C / S descriptions) as extra documents for the
+    delivery / fault / totality / concurrency checks."""
+    d = scratch.sub("tsdocs")
+    if os.listdir(d):
+        return d
+    for fam in ("S", "C"):
+        out = scratch.path("ttx.extra.%s.ndjson" % fam)
+        r = tlc(scratch, "GenTeletext", "GenTeletext.cfg", env=dict(GEN_FAM=fam, GEN_PART=0, GEN_PARTS=4, GEN_OUT=out), heap="2g", timeout=900)
+        require_ok(r, "GenTeletext (extra documents)")
+        vlib.run_drive(drive, ["teletext", "-cases", out, "-out", scratch.path("ttx.extra.%s.trace" % fam), "-dump", d, "-n0", str(ord(fam))])
+    return d
+
+
 # ------------------------------------------------------------------------------------------------
 # C09-C14: list operations
 # ------------------------------------------------------------------------------------------------
@@ -384,6 +398,7 @@ def check_io(pid, tier, seed, scratch, replay):
         return tr
 
     dparts = 8
+    tsdir = ts_docs(scratch, drive)
 
     def run_e2e(p):
         tr = scratch.path("trace.e2e.%d.ndjson" % p)
@@ -397,6 +412,7 @@ def check_io(pid, tier, seed, scratch, replay):
             args += ["-large"] + ([] if faults else ["-scale", "3", "-nearp", "8"])
         elif not faults:
             args.append("-large")
+        args += ["-extra", tsdir]
         vlib.run_drive(drive, args)
         return tr
 
@@ -731,11 +747,12 @@ def check_totality(pid, tier, seed, scratch, replay):
         return tr
 
     eparts = 8
+    tsdir = ts_docs(scratch, drive)
 
     def run_bytes(p):
         tr = scratch.path("trace.tot.bytes.%d.ndjson" % p)
         vlib.run_drive(drive, ["totality", "-out", tr, "-seed", str(seed), "-part", str(p), "-parts", str(eparts), "-n0", str(900000000 + p * 1000000),
-                               "-dense", "3000" if thorough else "400"], timeout=3000)
+                               "-dense", "3000" if thorough else "400", "-extra", tsdir], timeout=3000)
         return tr
 
     with cf.ThreadPoolExecutor(max_workers=vlib.NCPU) as ex:
@@ -773,6 +790,7 @@ def check_conc(pid, tier, seed, scratch, replay):
                        "gate-forced interleavings cover the first steps of each call (then the calls run freely to completion)"]
     drive = vlib.build_harness(scratch)
     drive_race = vlib.build_harness(scratch, race=True)
+    tsdir = ts_docs(scratch, drive)
 
     def gen(nc, ns):
         out = scratch.path("sched.%d.%d.ndjson" % (nc, ns))
@@ -786,13 +804,14 @@ def check_conc(pid, tier, seed, scratch, replay):
         traces = []
         for i, sc in enumerate(scheds):
             tr = scratch.path("trace.conc.gated.%d.ndjson" % i)
-            vlib.run_drive(drive, ["conc", "-cases", sc, "-out", tr, "-seed", str(seed + i), "-combos", "12" if thorough else "4", "-free", "0"], timeout=3000)
+            vlib.run_drive(drive, ["conc", "-cases", sc, "-out", tr, "-seed", str(seed + i), "-combos", "12" if thorough else "4", "-free", "0"], timeout=3000,
+                           env={"VERIF_EXTRA_DOCS": tsdir})
             traces.append(tr)
         # free-running under the race detector
         racelog = scratch.path("racelog")
         tr = scratch.path("trace.conc.free.ndjson")
         vlib.run_drive(drive_race, ["conc", "-out", tr, "-seed", str(seed), "-free", "150" if thorough else "30"], timeout=3000,
-                       env={"GORACE": "log_path=%s exitcode=0 halt_on_error=0" % racelog})
+                       env={"GORACE": "log_path=%s exitcode=0 halt_on_error=0" % racelog, "VERIF_EXTRA_DOCS": tsdir})
         reports = []
         for f in glob.glob(racelog + "*"):
             txt = open(f, errors="replace").read()
